@@ -6,10 +6,11 @@ import numpy as np
 from .. import alph
 from .. import genhkl as G
 from .. import oracles as O
-from ..core import CaseResult, bind_repo, seed_from_env
+from ..core import CaseResult, bind_repo, seed_from_env, twice
 
 PROP = "C05"
 LEVEL = "exploration"
+SECOND_SCHEDULE = 4  # stride of the reverse-order history pass (0 = off, 1 = every case)
 RULE = ("237 settings x conforming cells (orthogonal-metric and oblique for triclinic/monoclinic, two to six alpha for rhombohedral) x "
         "shells (0,s1] and (s0,s1'] whose bounds are moved to the midpoint between neighbouring lattice-point values x both modules; "
         "genhkl_all compared as a multiset of integer rows with a brute-force scan of the true index box (extinction decided exactly "
@@ -37,7 +38,8 @@ def cases(tier, seed):
         g = sg.sg(sgno=no, cell_choice=cc)
         for ci, cell in enumerate(alph.conforming_cells(g.crystal_system, g.cell_choice, tier)):
             for mod in ("tools", "laue"):
-                cs.append({"mod": mod, "no": no, "cc": cc, "cell": cell, "tier": tier, "names": names[(no, cc)] if ci == 0 else [], "seed": seed})
+                cs.append({"mod": mod, "no": no, "cc": cc, "cell": cell, "tier": tier, "names": names[(no, cc)] if ci == 0 else [], "seed": seed,
+                           "far": mod == "tools" or ci == 0})
     # heaviest first does not matter for correctness; keep canonical order
     return cs
 
@@ -70,6 +72,8 @@ def check_case(case):
     no, cc, cell, tier = case["no"], case["cc"], case["cell"], case["tier"]
     g = sg.sg(sgno=no, cell_choice=cc)
     shells = SHELLS[tier]
+    if not case.get("far", True):
+        shells = shells[:-1]  # far-out thin shell: xfab.laue runs it on the first cell of each setting only (C14 compares the modules)
     orc = G.Oracle(g, cell, max(s[1] for s in shells))
     base = "%s:Sg%d/%s:cell=%s" % (case["mod"], no, cc, cell)
     ortho = all(x == 90 for x in cell[3:])
@@ -91,6 +95,22 @@ def check_case(case):
         r.extra["max_index"] = max(r.extra["max_index"], orc.max_index(smin, smax))
         r.extra["reflections"] = r.extra.get("reflections", 0) + len(ref)
         r.states += 1
+    # shell bounds 5e-9 (relative) away from a lattice-point value - the closest the property's quantifier allows: the family at
+    # u must be IN for sintlmin = u(1-5e-9) and OUT for u(1+5e-9); the family at v OUT for sintlmax = v(1-5e-9) and IN for v(1+5e-9)
+    vals = np.unique(np.round(orc.s[~orc.ext], 10))
+    if len(vals) > 8:
+        u, v = float(vals[len(vals) // 8]), float(vals[len(vals) // 3])
+        for smin, smax in ((u * (1 - 5e-9), v * (1 - 5e-9)), (u * (1 + 5e-9), v * (1 + 5e-9))):
+            ref = orc.allowed(smin, smax)
+            key = "%s:tight-shell=(%.12g,%.12g]" % (base, smin, smax)
+            np.random.seed(0)
+            H, err = G.call_lib(mod.genhkl_all, cell, smin, smax, sgno=no, cell_choice=cc)
+            if err:
+                r.violation(key + ":exception", "genhkl_all raised", None, err)
+                continue
+            rows, integral = G.as_int_rows(H)
+            compare_all(r, key, rows, integral, ref, orc.family)
+            r.states += 1
     # independence of numpy's global random state (second shell: moderate size)
     t0, t1 = shells[1]
     smin, smax = orc.bound(t0), orc.bound(t1)
@@ -115,6 +135,12 @@ def check_case(case):
         ref = orc.allowed(smin, smax)
         for nm in case["names"]:
             key = "%s:name=%s:shell=(%.6f,%.6f]" % (base, nm, smin, smax)
+            np.random.seed(0)
+            try:
+                # history probe: call, the caller edits the returned array in place, call again with the same arguments
+                twice(r, key, mod.genhkl_all, cell, smin, smax, sgname=nm, output_stl=True, _sort_rows=True)
+            except Exception:
+                pass
             np.random.seed(0)
             H, err = G.call_lib(mod.genhkl_all, cell, smin, smax, sgname=nm)
             if err:
